@@ -28,7 +28,7 @@ TEXT = {
               'delimiter set, value layer, file system and environment): whenever run returns an error for a source without an include tag, '
               'compile-time or render-time, some token t of scan that is a TAG or an OBJECT has e.line = t.line = start line + number of '
               'newline bytes of the source before t, the token sources partition the source, and the error names the configured path; '
-              'for spelled templates the error points at an item that is a tag or object (run_spell_error_at_item). Tie: the `errloc` stream places every kind of failing construct at every '
+              'for spelled templates the error points at an item that is a tag or object (run_spell_error_at_item); with an include tag the line can be one of the included file instead (include_error_line). Tie: the `errloc` stream places every kind of failing construct at every '
               'nesting depth, with/without path and start line, compares model and real engine (kind, line, path, cause) and '
               'checks the line against the known position.'),
     "design_ref": 'DESIGN.md 6 C07',
